@@ -8,15 +8,19 @@
 From Sdns Require Import Common.Base Gen.C04 C04.Model C04.Run C04.Proofs.
 Open Scope Z_scope.
 
+(* tie: the cap divides by what the source divides by, one second *)
+Lemma gen_dns64_cap_unit : dns64_cap_unit = second.
+Proof. reflexivity. Qed.
+
 Lemma dns64_cap_le b now ttl : dns64_cap b now ttl <= ttl.
 Proof.
-  unfold dns64_cap. destruct b as [c|]; [|lia].
+  unfold dns64_cap. rewrite gen_dns64_cap_unit. destruct b as [c|]; [|lia].
   cbv zeta. destruct (Z.ltb_spec ((if c - now <? 0 then 0 else c - now) / second) ttl); lia.
 Qed.
 
 Lemma dns64_cap_nonneg b now ttl : 0 <= ttl -> 0 <= dns64_cap b now ttl.
 Proof.
-  intros Ht. unfold dns64_cap. destruct b as [c|]; [|lia]. cbv zeta.
+  intros Ht. unfold dns64_cap. rewrite gen_dns64_cap_unit. destruct b as [c|]; [|lia]. cbv zeta.
   pose proof second_pos as Hs.
   assert (Hl : 0 <= (if c - now <? 0 then 0 else c - now)) by (destruct (Z.ltb_spec (c - now) 0); lia).
   pose proof (Z.div_pos _ second Hl Hs) as Hd.
@@ -26,7 +30,7 @@ Qed.
 (* the capped TTL, in nanoseconds, is inside what is left until the bound *)
 Lemma dns64_cap_within c now ttl : dns64_cap (Some c) now ttl * second <= Z.max 0 (c - now).
 Proof.
-  unfold dns64_cap. cbv zeta. pose proof second_pos as Hs.
+  unfold dns64_cap. rewrite gen_dns64_cap_unit. cbv zeta. pose proof second_pos as Hs.
   set (left := if c - now <? 0 then 0 else c - now).
   assert (Hl : left = Z.max 0 (c - now)) by (subst left; destruct (Z.ltb_spec (c - now) 0); lia).
   assert (H0 : 0 <= left) by lia.
